@@ -295,6 +295,9 @@ def run(scn):
                 stats["aborted_reads"] += 1
 
     ops = scn["ops"]
+    from ..agents import StateSampler
+    fe = tb.dut.frontend if core else dut
+    samp = StateSampler(sim, [fe.fsm.state, bus.cyc, bus.stb, bus.we, port.cmd.valid, port.cmd.ready, port.wdata.ready, port.rdata.valid])
     mas = WBMaster(sim, bus, ops, wnb, on_done, viol)
     sim.add_agent("sys", mas)
     if not core:
@@ -338,7 +341,7 @@ def run(scn):
     stats["core_variant_runs"] = 1 if core else 0
     return {"violations": viol.v, "stats": stats, "cycles": cyc, "sim_ps": sim.now, "digest": sim.digest(),
             "nontrivial": stats["acks"] >= 2,
-            "states": ["wb%d port%d" % (wdw, pdw)],
+            "states": samp.states("wb%d:%d " % (wdw, pdw)),
             "summary": {"wb_dw": wdw, "port_dw": pdw, "ops": len(ops), "acks": stats["acks"], "aborts": stats["aborts"]}}
 
 
